@@ -372,3 +372,423 @@ EPS3 = ["multi", "rule:multi", "legacy", "graph:all", "nograph:all"]
 
 def ser_c(M):
     return [[[float(np.real(x)), float(np.imag(x))] for x in row] for row in np.asarray(M)]
+
+
+# ------------------------------------------------------------------ own float semantics of the serialised operators
+def _rot(c, s, kind):
+    if kind == "Z":
+        return np.array([[c - 1j * s, 0], [0, c + 1j * s]])
+    if kind == "Y":
+        return np.array([[c, -s], [s, c]], dtype=complex)
+    return np.array([[c, -1j * s], [-1j * s, c]])
+
+
+_FIXED = {"CNOT": [[1, 0, 0, 0], [0, 1, 0, 0], [0, 0, 0, 1], [0, 0, 1, 0]], "CZ": np.diag([1, 1, 1, -1]), "SWAP": [[1, 0, 0, 0], [0, 0, 1, 0], [0, 1, 0, 0], [0, 0, 0, 1]],
+          "PauliX": [[0, 1], [1, 0]], "PauliY": [[0, -1j], [1j, 0]], "PauliZ": [[1, 0], [0, -1]], "Identity": [[1, 0], [0, 1]],
+          "S": [[1, 0], [0, 1j]], "Adjoint(S)": [[1, 0], [0, -1j]], "Hadamard": [[SQH, SQH], [SQH, -SQH]]}
+
+
+def np_op(o):
+    """(wires, matrix) of a serialised operator, by the textbook formulas (independent of qp.matrix)"""
+    nm, w = o["name"], list(o["wires"])
+    if nm in ("RZ", "RY", "RX"):
+        t = o["params"][0] / 2
+        return w, _rot(math.cos(t), math.sin(t), nm[1])
+    if nm == "Rot":
+        phi, th, om = o["params"]
+        c, s = math.cos(th / 2), math.sin(th / 2)
+        return w, np.array([[cmath.exp(-0.5j * (phi + om)) * c, -cmath.exp(0.5j * (phi - om)) * s],
+                            [cmath.exp(-0.5j * (phi - om)) * s, cmath.exp(0.5j * (phi + om)) * c]])
+    if nm == "PhaseShift":
+        return w, np.diag([1, cmath.exp(1j * o["params"][0])])
+    if nm == "GlobalPhase":
+        return [], np.array([[cmath.exp(-1j * o["params"][0])]])
+    if nm == "QubitUnitary":
+        return w, np.array([[complex(a, b) for a, b in r] for r in o["matrix"]])
+    if nm == "SelectPauliRot":
+        ws = list(o["control"]) + list(o["target"])
+        d = 1 << len(ws)
+        M = np.zeros((d, d), dtype=complex)
+        for j, a in enumerate(o["angles"]):
+            M[2 * j:2 * j + 2, 2 * j:2 * j + 2] = _rot(math.cos(a / 2), math.sin(a / 2), o["axis"])
+        return ws, M
+    if nm in _FIXED:
+        return w, np.array(_FIXED[nm], dtype=complex)
+    raise KeyError(nm)
+
+
+def np_embed(M, wires, n):
+    k = len(wires)
+    if k == 0:
+        return M[0, 0] * np.eye(1 << n)
+    T = M.reshape((2,) * (2 * k))
+    full = np.eye(1 << n, dtype=complex).reshape((2,) * (2 * n))
+    # apply on the row indices `wires`
+    out = np.tensordot(T, full, axes=(list(range(k, 2 * k)), wires))
+    out = np.moveaxis(out, list(range(k)), wires)
+    return out.reshape(1 << n, 1 << n)
+
+
+def np_circuit(ops, n):
+    M = np.eye(1 << n, dtype=complex)
+    for o in ops:
+        w, G = np_op(o)
+        M = np_embed(G, w, n) @ M
+    return M
+
+
+# ------------------------------------------------------------------ rational enclosures (mpmath interval arithmetic)
+GRID = 72
+
+
+def _fr_mpf(t):
+    s, man, exp, _ = t
+    v = Fr(int(man)) * (Fr(2) ** int(exp))
+    return -v if s else v
+
+
+def _ends(x):
+    a, b = x._mpi_
+    lo, hi = _fr_mpf(a), _fr_mpf(b)
+    K = 1 << GRID
+    return Fr(math.floor(lo * K), K), Fr(math.ceil(hi * K), K)
+
+
+def _iv():
+    from mpmath import iv
+    iv.prec = 110
+    return iv
+
+
+def enc_c(re, im):
+    return (_ends(re), _ends(im))
+
+
+def enc_pt(z):
+    return ((Fr(z.real), Fr(z.real)), (Fr(z.imag), Fr(z.imag)))
+
+
+def enc_op(o):
+    """(wires, matrix of complex enclosures ((relo, rehi), (imlo, imhi))); floats are taken as the exact rationals they are"""
+    iv = _iv()
+    nm, w = o["name"], list(o["wires"])
+    zero, one = iv.mpf(0), iv.mpf(1)
+    Z = enc_c(zero, zero)
+
+    def rot(a, kind):
+        t = iv.mpf(a) / 2
+        c, s = iv.cos(t), iv.sin(t)
+        if kind == "Z":
+            return [[enc_c(c, -s), Z], [Z, enc_c(c, s)]]
+        if kind == "Y":
+            return [[enc_c(c, zero), enc_c(-s, zero)], [enc_c(s, zero), enc_c(c, zero)]]
+        return [[enc_c(c, zero), enc_c(zero, -s)], [enc_c(zero, -s), enc_c(c, zero)]]
+    if nm in ("RZ", "RY", "RX"):
+        return w, rot(o["params"][0], nm[1])
+    if nm == "Rot":
+        phi, th, om = [iv.mpf(x) for x in o["params"]]
+        c, s = iv.cos(th / 2), iv.sin(th / 2)
+        a, b = (phi + om) / 2, (phi - om) / 2
+        return w, [[enc_c(iv.cos(a) * c, -iv.sin(a) * c), enc_c(-iv.cos(b) * s, -iv.sin(b) * s)],
+                   [enc_c(iv.cos(b) * s, -iv.sin(b) * s), enc_c(iv.cos(a) * c, iv.sin(a) * c)]]
+    if nm == "GlobalPhase":
+        p = iv.mpf(o["params"][0])
+        e = enc_c(iv.cos(p), -iv.sin(p))
+        return [0], [[e, Z], [Z, e]]
+    if nm == "QubitUnitary":
+        return w, [[enc_pt(complex(a, b)) for a, b in r] for r in o["matrix"]]
+    if nm == "SelectPauliRot":
+        ws = list(o["control"]) + list(o["target"])
+        d = 1 << len(ws)
+        M = [[Z] * d for _ in range(d)]
+        for j, a in enumerate(o["angles"]):
+            R = rot(a, o["axis"])
+            for r in range(2):
+                for c in range(2):
+                    M[2 * j + r][2 * j + c] = R[r][c]
+        return ws, M
+    if nm in ("CNOT", "CZ", "SWAP", "PauliX", "PauliY", "PauliZ", "Identity", "S", "Adjoint(S)"):
+        return w, [[enc_pt(complex(x)) for x in r] for r in np.array(_FIXED[nm], dtype=complex)]
+    raise KeyError(nm)
+
+
+def gq_(q):
+    q = Fr(q)
+    return f"({q.numerator} # {q.denominator})" if q >= 0 else f"(({q.numerator}) # {q.denominator})"
+
+
+def g_itv(p):
+    return f"({gq_(p[0])}, {gq_(p[1])})"
+
+
+def g_ci(e):
+    return f"({g_itv(e[0])}, {g_itv(e[1])})"
+
+
+def g_igate(w, M):
+    return "(" + glist(w, gnat) + ", " + glist(M, lambda r: glist(r, g_ci)) + ")"
+
+
+def g_z8(x):
+    return "(" + ", ".join(gq_(v) for v in x) + ")"
+
+
+def half_encl():
+    iv = _iv()
+    return _ends(iv.sqrt(iv.mpf(1) / 2))
+
+
+GK = {"RZ": "GRZ", "RY": "GRY", "RX": "GRX", "Rot": "GRot", "CNOT": "GCNOT", "QubitUnitary": "GQU", "GlobalPhase": "GPhase"}
+
+
+def g_skel(ops):
+    out = []
+    for o in ops:
+        k = GK.get(o["name"])
+        ws = o["wires"]
+        if o["name"] == "SelectPauliRot":
+            k = {"Z": "GSelZ", "Y": "GSelY"}.get(o["axis"], "GOther")
+            ws = list(o["control"]) + list(o["target"])
+        out.append(f"({k or 'GOther'}, {glist(ws, gnat)})")
+    return "[" + "; ".join(out) + "]"
+
+
+CONV = {"ZYZ": "CZYZ", "XYX": "CXYX", "XZX": "CXZX", "ZXZ": "CZXZ", "rot": "CRot", "zyz": "CZYZ", "xyx": "CXYX", "xzx": "CXZX", "zxz": "CZXZ"}
+
+
+def g_entry(ep, n):
+    if ep.startswith("graph:") or ep.startswith("nograph:"):
+        return f"(EElementary {gnat(n)})"
+    if n == 1:
+        if ep.startswith("one:") or ep.startswith("rule:"):
+            return f"(EOne {CONV[ep.split(':')[1]]})"
+        return "(EOne CZYZ)"
+    if n == 2:
+        return "ETwo"
+    return f"(EMulti {gnat(n)})"
+
+
+HDR = "From Coq Require Import List ZArith QArith Bool.\nFrom PLV Require Import Lin.Vec Num.SynthModel.\nImport ListNotations.\nOpen Scope Q_scope."
+TOL = 1e-9
+B2 = Fr(1, 10 ** 14)
+
+
+def u_cols_exact(case):
+    """columns of U as z8 entries: exact Q(zeta8) matrix if the case has one, else the float entries as dyadic rationals"""
+    X = case.get("exact")
+    d = 1 << case["n"]
+    if X is not None:
+        return [[X[r][c] for r in range(d)] for c in range(d)]
+    U = case["Unp"]
+    return [[(Fr(float(U[r, c].real)), Fr(0), Fr(float(U[r, c].imag)), Fr(0)) for r in range(d)] for c in range(d)]
+
+
+# ------------------------------------------------------------------ cases
+def _np_rot(phi, th, om):
+    return np_op({"name": "Rot", "wires": [0], "params": [phi, th, om]})[1]
+
+
+_XX = np.kron(np.array([[0, 1], [1, 0]]), np.array([[0, 1], [1, 0]])).astype(complex)
+
+
+def _ising_xx(t):
+    return math.cos(t / 2) * np.eye(4) - 1j * math.sin(t / 2) * _XX
+
+
+def build_cases(ctx):
+    rng = ctx.rng
+    nprng = np.random.default_rng(ctx.seed * 7919 + 14)
+    quick = ctx.tier == "quick"
+    cases = []
+
+    def add(n, kind, stream, U=None, exact=None, eps=None, delta=None):
+        if U is None:
+            U = xm_float(exact)
+        c = {"n": n, "kind": kind, "stream": stream, "Unp": np.asarray(U, dtype=complex), "exact": exact, "delta": delta, "idx": len(cases)}
+        if eps is None:
+            i = sum(1 for x in cases if x["n"] == n)
+            if n == 1:
+                eps = [e for e in EPS1 if not e.startswith("graph")] + ([e for e in EPS1 if e.startswith("graph")][i % 4:i % 4 + 1] if i % 2 == 0 or not quick else [])
+            elif n == 2:
+                eps = list(EPS2) if (i % 2 == 0 or not quick) else EPS2[:3]
+            else:
+                eps = list(EPS3) if (i % 3 == 0 or not quick) else EPS3[:3]
+        c["eps"] = eps
+        cases.append(c)
+        return c
+    # 0. deterministic witnesses of the recorded findings (always first)
+    B = _np_rot(1.0, 2.0, 3.0)
+    add(2, "witness:X(x)B.IsingXX(1e-5)", "near", U=np.kron(np.array([[0, 1], [1, 0]]), B) @ _ising_xx(1e-5), eps=["two", "rule:two"], delta=5e-6)
+    add(2, "witness:A(x)B.IsingXX(1e-4)", "near", U=np.kron(_np_rot(0.3, 0.4, 0.5), B) @ _ising_xx(1e-4), eps=["two", "rule:two"], delta=5e-5)
+    add(1, "witness:rot-theta-1e-8", "near", U=cmath.exp(0.3j) * _np_rot(0.7, 1e-8, -1.1), eps=["one:rot:1", "rule:rot"], delta=5e-9)
+    # 1. corpus
+    for kind, X in corpus1(rng):
+        add(1, kind, "corpus", exact=X)
+    for kind, X in corpus2(rng):
+        add(2, kind, "corpus", exact=X)
+    for kind, X in corpus3(rng):
+        add(3, kind, "corpus", exact=X)
+    # 2. random exact / Haar
+    nx = {1: 12, 2: 30, 3: 3, 4: 0} if quick else {1: 60, 2: 200, 3: 24, 4: 3}
+    nh = {1: 8, 2: 16, 3: 3, 4: 0} if quick else {1: 40, 2: 150, 3: 16, 4: 3}
+    for n in (1, 2, 3, 4):
+        for _ in range(nx[n]):
+            kind, X = gen_random_exact(rng, n)
+            add(n, kind, "exact", exact=X)
+        for _ in range(nh[n]):
+            add(n, "haar", "haar", U=haar(nprng, 1 << n))
+    # 3. near / moderate streams (two qubits): perturbations of structured matrices
+    base2 = [c for c in cases if c["n"] == 2 and c["stream"] in ("corpus", "exact")]
+    levels = [1e-12, 1e-10, 1e-9, 1e-8, 1e-7, 1e-6, 1e-5, 1e-4, 1e-3]
+    for _ in range(36 if quick else 300):
+        b = rng.choice(base2)
+        e = rng.choice(levels)
+        H = herm(nprng, 4)
+        from scipy.linalg import expm
+        add(2, f"near:{b['kind']}:{e:g}", "near", U=b["Unp"] @ expm(1j * e * H), eps=["two", "rule:two"][:1 if quick else 2], delta=e * float(np.linalg.norm(H, 2)))
+    for _ in range(10 if quick else 80):
+        b = rng.choice(base2)
+        e = rng.choice([0.03, 0.1, 0.3])
+        add(2, f"moderate:{b['kind']}:{e:g}", "moderate", U=perturb(nprng, b["Unp"], e), eps=["two"])
+    # 4. near-degenerate one-qubit unitaries (theta close to 0, pi, 2 pi)
+    for _ in range(8 if quick else 60):
+        d = rng.choice([1e-12, 1e-10, 1e-9, 1e-8, 3e-8, 1e-7, 1e-6])
+        th = rng.choice([d, math.pi - d, math.pi + d, 2 * math.pi - d])
+        U = cmath.exp(1j * rng.uniform(-3, 3)) * _np_rot(rng.uniform(-6, 6), th, rng.uniform(-6, 6))
+        add(1, f"near:theta={th!r}", "near", U=U, eps=[e for e in EPS1 if not e.startswith("graph")], delta=d)
+    return cases
+
+
+def case_hash(c):
+    return hashlib.sha1(json.dumps(ser_c(c["Unp"])).encode()).hexdigest()[:10]
+
+
+def up_to_phase_err(M, U):
+    k = int(np.argmax(np.abs(U)))
+    ph = U.flat[k] / M.flat[k] if abs(M.flat[k]) > 1e-12 else 1.0
+    ph = ph / abs(ph)
+    return float(np.abs(M * ph - U).max()), cmath.phase(ph)
+
+
+def run(ctx):
+    from concurrent.futures import ThreadPoolExecutor
+    ctx.coq_props()
+    quick = ctx.tier == "quick"
+    cases = build_cases(ctx)
+    if getattr(ctx, "replay", None):
+        rp = ctx.replay.get("replay", {})
+        if "U" in rp:
+            cases = [{"n": rp["n"], "kind": rp.get("kind", "replay"), "stream": rp.get("stream", "exact"), "exact": None, "delta": rp.get("delta"),
+                      "Unp": np.array([[complex(a, b) for a, b in r] for r in rp["U"]]), "eps": [rp["ep"]], "idx": 0}]
+    # ---- run the implementation (parallel workers)
+    NW = 6
+    order = sorted(range(len(cases)), key=lambda i: -(4 ** cases[i]["n"]) * len(cases[i]["eps"]))
+    parts = [order[k::NW] for k in range(NW)]
+    parts = [p for p in parts if p]
+
+    def work(p):
+        return ctx.run_impl("c14_impl.py", {"mode": "synth", "cases": [{"n": cases[i]["n"], "U": ser_c(cases[i]["Unp"]), "eps": cases[i]["eps"]} for i in p]}, timeout=3000)
+    t0 = time.time()
+    results = [None] * len(cases)
+    with ThreadPoolExecutor(max_workers=NW) as ex:
+        for p, o in zip(parts, ex.map(work, parts)):
+            for i, r in zip(p, o["results"]):
+                results[i] = r
+    t_impl = time.time() - t0
+    # ---- B(i): direct oracle
+    stats = {"results": 0, "raised": 0, "by_stream": {}, "by_n": {}, "cnot_hist": {}, "max_err": {}, "findings": {}}
+    skel_terms, skel_ref, dist_terms, dist_ref = [], [], [], []
+    h = half_encl()
+    for c, rs in zip(cases, results):
+        n, U = c["n"], c["Unp"]
+        for r in rs:
+            ep = r["ep"]
+            stats["results"] += 1
+            stats["by_stream"][c["stream"]] = stats["by_stream"].get(c["stream"], 0) + 1
+            stats["by_n"][str(n)] = stats["by_n"].get(str(n), 0) + 1
+            rep = {"n": n, "kind": c["kind"], "stream": c["stream"], "ep": ep, "U": ser_c(U), "delta": c["delta"]}
+            near = c["stream"] == "near"
+
+            def report(what, err=None, base="synth"):
+                if near and err is not None:
+                    sev = "precision-loss" if err <= 10 * c["delta"] else "wrong-circuit"
+                    key = f"finding:{'two' if n == 2 else 'one'}-qubit-near-{'class-boundary' if n == 2 else 'degenerate'}:{sev}"
+                    stats["findings"][key] = stats["findings"].get(key, 0) + 1
+                else:
+                    key = f"{base}:{ep}:{c['kind'].split(':')[0]}:{case_hash(c)}"
+                ctx.violation(key, dict(rep, error=err, ops=r.get("ops")), what=what)
+            if "raised" in r:
+                stats["raised"] += 1
+                report(f"{ep} raised on a {n}-qubit unitary ({c['kind']}): {r['raised']}", base="raised")
+                continue
+            ops = r["ops"]
+            phase_free = ep.startswith("one:") and ep.endswith(":0")
+            try:
+                M = np_circuit(ops, n)
+            except KeyError as e:
+                report(f"{ep} returned an operator outside the documented gate set: {e}", base="gateset")
+                continue
+            if phase_free:
+                own, ph = up_to_phase_err(M, U)
+                impl = r["err_phase"]
+            else:
+                own, impl, ph = float(np.abs(M - U).max()), r["err"], None
+            err = max(own, impl)
+            k = (n, ep.split(":")[0])
+            stats["max_err"]["%d:%s" % k] = max(stats["max_err"].get("%d:%s" % k, 0.0), err if not near else 0.0)
+            ncnot = sum(1 for o in ops if o["name"] == "CNOT")
+            nent = sum(1 for o in ops if len(o["wires"]) >= 2)
+            if n == 2:
+                stats["cnot_hist"][str(nent)] = stats["cnot_hist"].get(str(nent), 0) + 1
+                if nent > 3:
+                    report(f"{ep}: two-qubit synthesis used {nent} two-qubit gates", base="cnots")
+            if abs(own - impl) > 1e-10 + 1e-6 * max(own, impl):
+                report(f"{ep}: qp.matrix of the returned circuit disagrees with the textbook matrices of its gates ({impl:.3e} vs {own:.3e})", base="semantics")
+            if not (err <= TOL):
+                report(f"{ep} on a {n}-qubit unitary ({c['kind']}): returned circuit differs from U by {err:.3e}" + (" up to global phase" if phase_free else " (global phase included)"), err=err)
+            # discrete tie (all results)
+            skel_terms.append(f"({g_entry(ep, n)}, {g_skel(ops)}, {gnat(ncnot)})")
+            skel_ref.append((c, r))
+            # numeric tie inside Coq (sample)
+            heavy = sum(4 ** len(o["wires"]) for o in ops) * (1 << n)
+            if err <= TOL and (heavy < 40000 or len(dist_terms) % 3 == 0 or not quick) and heavy < 600000:
+                try:
+                    gates = [enc_op(o) for o in ops]
+                except KeyError:
+                    continue
+                if phase_free:
+                    gates.append(enc_op({"name": "GlobalPhase", "wires": [], "params": [-ph]}))
+                cols = u_cols_exact(c)
+                dist_terms.append(f"({gnat(n)}, {glist(gates, lambda g: g_igate(*g))},\n {glist(cols, lambda col: glist(col, g_z8))}, {g_itv(h)}, {gq_(B2)})")
+                dist_ref.append((c, r))
+    t1 = time.time()
+    bad = ctx.coq_eval_cases("skel", HDR, skel_terms, "check_skel", chunk=400)
+    for i in bad:
+        c, r = skel_ref[i]
+        key = f"skeleton:{r['ep']}:{c['kind'].split(':')[0]}:{case_hash(c)}"
+        ctx.violation(key, {"n": c["n"], "kind": c["kind"], "ep": r["ep"], "U": ser_c(c["Unp"]), "ops": r["ops"], "stream": c["stream"], "delta": c["delta"]},
+                      what=f"{r['ep']}: the emitted circuit {[o['name'] for o in r['ops']]} is not an instance of the documented template / gate set / CNOT bound")
+    t2 = time.time()
+    badd = ctx.coq_eval_cases("dist", HDR, dist_terms, "check_dist", chunk=12 if quick else 20, par=14)
+    for i in badd:
+        c, r = dist_ref[i]
+        key = f"coq-distance:{r['ep']}:{c['kind'].split(':')[0]}:{case_hash(c)}"
+        ctx.violation(key, {"n": c["n"], "kind": c["kind"], "ep": r["ep"], "U": ser_c(c["Unp"]), "ops": r["ops"], "stream": c["stream"], "delta": c["delta"]},
+                      what=f"{r['ep']}: interval evaluation inside Coq cannot confirm |circuit - U| <= 1e-7")
+    t3 = time.time()
+    tmpl = run_templates(ctx)
+    ctx.coverage.update({
+        "evaluations": stats["results"], "distinct_nontrivial": len({(case_hash(c), r["ep"]) for c, r in skel_ref if len(r["ops"]) > 1}),
+        "rule": "one evaluation = one (unitary, entry point) synthesis; non-trivial = circuit with more than one operator",
+        "input_distribution": {"by_stream": stats["by_stream"], "by_qubits": stats["by_n"],
+                               "kinds": {k: sum(1 for c in cases if c["kind"].split(":")[0] == k) for k in sorted({c["kind"].split(":")[0] for c in cases})}},
+        "two_qubit_entangler_histogram": stats["cnot_hist"], "max_error_outside_near_stream": {k: float("%.3g" % v) for k, v in stats["max_err"].items()},
+        "raised": stats["raised"], "finding_hits": stats["findings"], "coq_skeleton_cases": len(skel_terms), "coq_distance_cases": len(dist_terms),
+        "templates": tmpl, "timing_s": {"impl": round(t_impl, 1), "coq_skel": round(t2 - t1, 1), "coq_dist": round(t3 - t2, 1), "templates": round(time.time() - t3, 1)},
+    })
+    for c, r in dist_ref[:2]:
+        ctx.sample({"n": c["n"], "kind": c["kind"], "ep": r["ep"], "ops": [o["name"] for o in r["ops"]], "err": r.get("err")})
+
+
+def run_templates(ctx):
+    return {}
